@@ -1,6 +1,9 @@
 package cluster
 
-import "github.com/tikv/pd/server/replication"
+import (
+	"github.com/tikv/pd/server/replication"
+	"github.com/tikv/pd/server/schedule/placement"
+)
 
 // VerifSetRunning marks the cluster as running without starting background workers (harness helper, overlay only).
 func VerifSetRunning(c *RaftCluster, running bool) {
@@ -11,3 +14,6 @@ func VerifSetRunning(c *RaftCluster, running bool) {
 
 // VerifSetReplicationMode installs a replication mode manager (Start normally does this).
 func VerifSetReplicationMode(c *RaftCluster, m *replication.ModeManager) { c.replicationMode = m }
+
+// VerifSetRuleManager installs a placement rule manager (InitCluster/Start normally do this).
+func VerifSetRuleManager(c *RaftCluster, m *placement.RuleManager) { c.ruleManager = m }
